@@ -462,6 +462,12 @@ def extract_playback_test(log_text):
         kind = re.search(r"Check for `(\w+)`", block)
         if kind and kind.group(1) == "cover":
             continue
+        # Kani copies the check description into a `///` comment; a description that rustc's
+        # stringify! wrapped over two lines leaves the second line outside the comment
+        head, sep, rest = block.partition("#[test]")
+        if sep:
+            head = "\n".join(l if l.lstrip().startswith("///") or not l.strip() else "/// " + l.strip() for l in head.split("\n"))
+            block = head + sep + rest
         tests.append(block)
     return "\n".join(tests) if tests else None
 
